@@ -150,7 +150,7 @@ func (sp *SeqProfile) Exec() explore.Exec {
 			if sp.Init != nil {
 				sp.Init(w)
 			}
-			for step := 0; step < sp.Depth && len(w.Viols) == 0; step++ {
+			for step := 0; step < sp.Depth && w.OnlySwallowed(); step++ {
 				ls := sp.Letters(w)
 				k := harness.Choose(len(ls)+1, harness.ClassOp)
 				if k == 0 {
@@ -161,7 +161,7 @@ func (sp *SeqProfile) Exec() explore.Exec {
 				l.Do(w)
 			}
 			stateHash = w.StateHash()
-			if len(w.Viols) == 0 {
+			if w.OnlySwallowed() { // (no violation, or only calls that hid a file failure: C07 is told, the others judge the consequences)
 				if sp.Finish != nil {
 					sp.Finish(w)
 				} else {
